@@ -5,7 +5,43 @@ from pyvc.values import ite, vand, vor, vnot, implies, Sym
 
 # ---- bits and numbers -------------------------------------------------------------------
 def bits(d, o, L):
+    if hasattr(d, 'field_bits'):
+        return d.field_bits(o, L)
     return (d >> o) & ((1 << L) - 1)
+
+
+class FieldPayload:
+    """A payload seen as independent bit-field variables: bits(d, o, L) is a fresh variable per (o, L).
+    Disjoint fields of a payload are independent, so this is exact for the fields of one definition; for
+    overlapping requests it over-approximates (sound for proofs; counterexamples are replayed natively)."""
+    def __init__(self, prefix='bits'):
+        self.vars = {}
+        self.prefix = prefix
+
+    def field_bits(self, o, L):
+        import z3
+        from pyvc.values import mk_int
+        k = (o, L)
+        if k not in self.vars:
+            t = z3.Int(f'{self.prefix}!{o}!{L}')
+            self.vars[k] = mk_int(t, (1 << L) - 1)
+        return self.vars[k]
+
+    def constraints(self):
+        import z3
+        return [z3.And(v.t >= 0, v.t < (1 << k[1])) for k, v in self.vars.items()]
+
+    def input_terms(self):
+        return {f'{o}:{L}': v.t for (o, L), v in self.vars.items()}
+
+    @staticmethod
+    def payload_from_model(model):
+        p = 0
+        for k, v in model.items():
+            if ':' in k and isinstance(v, int):
+                o, L = k.split(':')
+                p |= (v & ((1 << int(L)) - 1)) << int(o)
+        return p
 
 
 def sbits(d, o, L, signed):
